@@ -598,7 +598,8 @@ func shapeOf(in Input) string {
 
 // sig: known-finding signature, computed from the INPUT only by replaying the history on the
 // finite-set reading of the property (never on gorm): the first operation that meets the exact
-// trigger condition of one of the four known defects names the case.
+// trigger condition of one of the two known defects names the case (two more, belongs-to
+// Unscoped Delete / Clear, were fixed in /repo: d23ce2a, 75c7076; their inputs are ordinary now).
 func sig(in Input) string {
 	rel := rels[in.Rel]
 	if rel.Kind != "KBelongs" && rel.Kind != "KM2M" {
@@ -642,18 +643,6 @@ func sig(in Input) string {
 			case "append", "replace":
 				if any {
 					return "belongs-to-unscoped-replace-deletes-new-target"
-				}
-			case "clear":
-				if any {
-					return "belongs-to-unscoped-clear-error"
-				}
-			case "delete":
-				for _, s := range sets {
-					for t := range s {
-						if !containsI(del, t) {
-							return "belongs-to-unscoped-delete-deletes-unnamed-target"
-						}
-					}
 				}
 			}
 		}
